@@ -197,7 +197,32 @@ func init() {
 			if g.r.chance(3, 4) {
 				o.headerMode = 1
 			}
-			t := g.buildTable(o)
+			var t string
+			if g.r.chance(1, 6) {
+				// headers with a duplicate of an earlier column (often the first one)
+				t = g.do("newtable")
+				n := 2 + g.r.n(3)
+				var hs []string
+				for i := 0; i < n; i++ {
+					hs = append(hs, g.strItem(fmt.Sprintf("k%d", i)))
+				}
+				src := 0
+				if g.r.chance(1, 3) {
+					src = g.r.n(n - 1)
+				}
+				dst := src + 1 + g.r.n(n-src-1)
+				hs[dst] = hs[src]
+				g.do("addheaders " + t + " " + joinC(hs))
+				for i := 0; i < 1+g.r.n(3); i++ {
+					var ids []string
+					for j := 0; j < g.r.n(n+1); j++ {
+						ids = append(ids, g.anyItem(alphaPlain, 2))
+					}
+					g.do("addrowitems " + t + " " + joinC(ids))
+				}
+			} else {
+				t = g.buildTable(o)
+			}
 			g.assignProps(t, "skip", skipVals)
 			if g.r.chance(1, 12) {
 				g.do(fmt.Sprintf("setprop c:%d:%d skip u5", idOf(t), g.r.n(g.ncols(t)+1)))
@@ -266,6 +291,7 @@ func init() {
 			for _, k := range []string{"csv", "json", "markdown", "html", "text"} {
 				w := g.do("wrap " + k + " " + t)
 				chk(k+" RenderTo", g.do("render "+w))
+				chk(k+" RenderTo(stdlib writer)", g.do("renderbuf "+w+" "+g.r.pick([]string{"buffer", "builder", "bufio"})))
 				chk(k+" Render", g.do("renderstr "+w))
 			}
 			for _, s := range g.listStyles() {
